@@ -5,6 +5,7 @@ import H3.Props.C02
 import H3.Props.C04
 import H3.Lemmas.C19
 import H3.Lemmas.C19IO
+import H3.Lemmas.C19Live
 import H3.Lemmas.VarintSpec
 /-! # C19 — WebTransport streams stay attached to their session, bytes intact -/
 namespace H3.Props.C19
@@ -50,16 +51,99 @@ theorem C19_bidi_header_decodes (s : Nat) (hs : s < 2^62) (payload : Bytes) :
 
 example : H3.Frame.decode (bidiHeader 256 ++ [1, 2, 3]) = .frame (.webTransport 256) 4 := by decide
 
-/-- WebTransport unidirectional streams are surfaced only when the extension is enabled. -/
-theorem C19_gated (enabled : Bool) (ty : Nat) :
-    (surfaceUni enabled ty = true ↔ (ty = 0x54 ∧ enabled = true)) ∧
-    (enabled = false → surfaceUni enabled ty = false) := by
-  unfold surfaceUni STREAM_WEBTRANSPORT_UNI
-  constructor
-  · constructor
-    · intro h; simp at h; exact h
-    · intro ⟨h1, h2⟩; simp [h1, h2]
-  · intro h; simp [h]
+private theorem uniFate_false (evs : List H3.FS.Ev) (id : Nat) (rd : Rd) (sc : List H3.FS.Ev) :
+    uniFate false evs ≠ .surface id rd sc := by
+  unfold uniFate
+  split
+  · split
+    · simp
+    · simp
+  · simp
+  · simp
+  · simp
+
+private theorem passOne_false_wt (acc : Accepted) (u : UniIn) :
+    (Accepted.passOne false acc u).wt = acc.wt := by
+  unfold Accepted.passOne
+  split
+  · rename_i id rd sc h
+    exact absurd h (uniFate_false _ _ _ _)
+  · rfl
+  · rfl
+
+private theorem fold_false_wt (l : List UniIn) (acc : Accepted) :
+    (l.foldl (Accepted.passOne false) acc).wt = acc.wt := by
+  induction l generalizing acc with
+  | nil => rfl
+  | cons u r ih => rw [List.foldl_cons, ih, passOne_false_wt]
+
+private theorem pass_false_wt (a : Accepted) : (a.pass false).wt = a.wt := by
+  unfold Accepted.pass
+  rw [fold_false_wt]
+
+private theorem runAccepts_false (ops : List AOp) :
+    ∀ a : Accepted, a.wt = [] → (runAccepts false a ops).1 = [] ∧ (runAccepts false a ops).2.wt = [] := by
+  induction ops with
+  | nil => intro a h; exact ⟨rfl, h⟩
+  | cons op r ih =>
+    intro a h
+    cases op with
+    | arrive u =>
+      simp only [runAccepts]
+      exact ih (a.arrive u) (by simpa [Accepted.arrive] using h)
+    | accept =>
+      have hw : (a.pass false).wt = [] := by rw [pass_false_wt, h]
+      have hacc : a.acceptUni false = (none, a.pass false) := by
+        unfold Accepted.acceptUni
+        rw [hw]
+        rfl
+      simp only [runAccepts, hacc]
+      exact ih (a.pass false) hw
+
+/-- **The gate, over the running model.**  With the extension disabled (`enable_webtransport =
+    false`): (1) whatever a uni stream delivers, the pass of `poll_accept_recv` over it never takes
+    the `WebTransportUni(id, s) if enable_webtransport` arm (`uniFate false` is never `surface`);
+    (2) for EVERY sequence of arrivals (any streams, any events on them) and `accept_uni` polls, in
+    any interleaving, starting from any state with an empty `wt_uni_streams`: no `accept_uni` ever
+    surfaces a stream and nothing is ever pushed on `wt_uni_streams`.  (3) Conversely, with the
+    extension enabled a stream is surfaced only if `poll_type` resolved it and `into_stream`
+    classified it as the WebTransport uni type, with the session id it is surfaced under. -/
+theorem C19_gated :
+    (∀ evs id rd sc, uniFate false evs ≠ .surface id rd sc) ∧
+    (∀ (a : Accepted) (ops : List AOp), a.wt = [] →
+      (runAccepts false a ops).1 = [] ∧ (runAccepts false a ops).2.wt = []) ∧
+    (∀ evs id rd sc, uniFate true evs = .surface id rd sc →
+      ∃ s rest, UniAccept.resolve (evs.length + 1) {} evs = .resolved s rest ∧
+        UniAccept.intoStream s = some (.wtUni id)) := by
+  refine ⟨uniFate_false, fun a ops h => runAccepts_false ops a h, ?_⟩
+  intro evs id rd sc h
+  unfold uniFate at h
+  split at h
+  · rename_i s rest hres
+    split at h
+    · rename_i id' hi
+      simp only [if_true, UniFate.surface.injEq] at h
+      exact ⟨s, rest, hres, by rw [hi, h.1]⟩
+    · cases h
+  · cases h
+  · cases h
+  · cases h
+
+/-! non-vacuity: two WebTransport uni streams (QUIC ids 6 and 10, sessions 4 and 8, the second with
+    FIN behind its payload) arrive and `accept_uni` is polled three times: with the extension off
+    nothing is surfaced and `wt_uni_streams` stays empty; with it on both are surfaced -/
+example : (runAccepts false {} [.arrive ⟨6, [.chunk [0x40, 0x54, 0x04, 0xaa]]⟩, .accept,
+      .arrive ⟨10, [.chunk [0x40, 0x54, 0x08, 0xbb], .fin]⟩, .accept, .accept]).1 = [] ∧
+    (runAccepts false {} [.arrive ⟨6, [.chunk [0x40, 0x54, 0x04, 0xaa]]⟩, .accept,
+      .arrive ⟨10, [.chunk [0x40, 0x54, 0x08, 0xbb], .fin]⟩, .accept, .accept]).2.wt = [] :=
+  C19_gated.2.1 {} _ rfl
+example : (runAccepts false {} [.arrive ⟨6, [.chunk [0x40, 0x54, 0x04, 0xaa]]⟩, .accept,
+      .arrive ⟨10, [.chunk [0x40, 0x54, 0x08, 0xbb], .fin]⟩, .accept, .accept]) = ([], {}) := by decide +kernel
+example : (runAccepts true {} [.arrive ⟨6, [.chunk [0x40, 0x54, 0x04, 0xaa]]⟩, .accept,
+      .arrive ⟨10, [.chunk [0x40, 0x54, 0x08, 0xbb], .fin]⟩, .accept, .accept]).1.map
+        (fun e => (e.stream, e.session)) = [(6, 4), (10, 8)] := by decide +kernel
+example : uniFate true [.chunk [0x40, 0x54, 0x08, 0xbb], .fin] =
+    .surface 8 { buf := [[0xbb]] } [.fin] := by decide +kernel
 
 /-- Reading after the header: the reader obtains the buffered remainder first, then what the
     transport delivers later, each byte once and in order. -/
@@ -216,24 +300,30 @@ section uni
 open H3.UniAccept H3.Lemmas.C04
 open H3.Spec.ControlRules (header)
 
-/-- **Unidirectional streams.**  The peer opens a stream with the header for session `sid`
-    (stream type 0x54, then the session id) followed by `payload`; for every script carrying
-    these bytes before the end of the stream (ANY cutting, `Pending` anywhere, FIN or RESET behind
-    the payload or still open) `poll_type`, polled until it is ready, resolves the stream: the type
-    is the WebTransport stream type, the id attached is exactly `sid`, and the bytes still buffered
-    followed by the bytes still to come are exactly the payload. -/
-theorem C19_uni_payload_after_header (sid : Nat) (hsid : sid < 2^62) (payload : List Nat)
-    (sc : List UniAccept.Ev) (hwf : ScriptWF sc) (hbytes : bytesOf sc = uniHeader sid ++ payload) :
+/-- the header `open_uni` writes for session `sid` is read by the RFC 9000 stream-header reader as
+    type 0x54, id `sid`, whatever follows -/
+theorem uniHeader_reads (sid : Nat) (hsid : sid < 2^62) (p : List Nat) :
+    header (uniHeader sid ++ p) = .complete 0x54 (some sid) p := by
+  unfold header uniHeader
+  rw [List.append_assoc, rfcDecode_encode _ (by decide)]
+  simp only [STREAM_WEBTRANSPORT_UNI]
+  simp only [show Spec.ControlRules.hasId 84 = true by decide, if_true, rfcDecode_encode sid hsid]
+
+/-- **Unidirectional streams, any encoding of the header.**  `hdr` is any byte string the RFC 9000
+    stream-header reader reads as stream type 0x54 followed by the id `sid`, whatever follows it
+    (the header `open_uni` writes, `uniHeader_reads`; but also one whose varints the peer wrote in
+    a longer form than necessary).  For every script carrying `hdr ++ payload` before the end of
+    the stream (ANY cutting, `Pending` anywhere, FIN or RESET behind the payload or still open)
+    `poll_type`, polled until it is ready, resolves the stream: the type is the WebTransport
+    stream type, the id attached is exactly `sid`, and the bytes still buffered followed by the
+    bytes still to come are exactly the payload. -/
+theorem C19_uni_payload_after_any_header (sid : Nat) (hdr payload : List Nat)
+    (hh : ∀ p, header (hdr ++ p) = .complete 0x54 (some sid) p)
+    (sc : List UniAccept.Ev) (hwf : ScriptWF sc) (hbytes : bytesOf sc = hdr ++ payload) :
     ∃ s r, resolve (sc.length + 1) {} sc = .resolved s r ∧
       s.ty = some 0x54 ∧ s.id = some sid ∧ s.buf ++ future s r = payload := by
   have hres := H3.Props.C04.C04_type_resolution sc hwf
-  have hh : header (bytesOf sc) = .complete 0x54 (some sid) payload := by
-    rw [hbytes]
-    unfold header uniHeader
-    rw [List.append_assoc, rfcDecode_encode _ (by decide)]
-    simp only [STREAM_WEBTRANSPORT_UNI]
-    simp only [show Spec.ControlRules.hasId 84 = true by decide, if_true, rfcDecode_encode sid hsid]
-  rw [hh] at hres
+  rw [hbytes, hh payload] at hres
   cases hr : resolve (sc.length + 1) {} sc with
   | resolved s r =>
     rw [hr] at hres
@@ -242,16 +332,32 @@ theorem C19_uni_payload_after_header (sid : Nat) (hsid : sid < 2^62) (payload : 
   | internal => rw [hr] at hres; exact hres.elim
   | waiting s => rw [hr] at hres; exact hres.elim
 
+/-- **Unidirectional streams.**  The same for the header h3 itself writes for session `sid`
+    (`uniHeader sid` = varint 0x54, varint `sid`), for every session id incl. multi-byte ones. -/
+theorem C19_uni_payload_after_header (sid : Nat) (hsid : sid < 2^62) (payload : List Nat)
+    (sc : List UniAccept.Ev) (hwf : ScriptWF sc) (hbytes : bytesOf sc = uniHeader sid ++ payload) :
+    ∃ s r, resolve (sc.length + 1) {} sc = .resolved s r ∧
+      s.ty = some 0x54 ∧ s.id = some sid ∧ s.buf ++ future s r = payload :=
+  C19_uni_payload_after_any_header sid (uniHeader sid) payload (uniHeader_reads sid hsid) sc hwf hbytes
+
+/-- ... hence a reader of the resolved stream (any encoding of the header) obtains the payload. -/
+theorem C19_uni_reader_after_any_header (sid : Nat) (hdr payload : List Nat)
+    (hh : ∀ p, header (hdr ++ p) = .complete 0x54 (some sid) p)
+    (sc : List UniAccept.Ev) (hwf : ScriptWF sc) (hbytes : bytesOf sc = hdr ++ payload) :
+    ∃ s r, resolve (sc.length + 1) {} sc = .resolved s r ∧ s.id = some sid ∧
+      readAll [s.buf] (futureChunks s r) = payload := by
+  obtain ⟨s, r, h1, _, h3, h4⟩ := C19_uni_payload_after_any_header sid hdr payload hh sc hwf hbytes
+  refine ⟨s, r, h1, h3, ?_⟩
+  rw [C19_read_after_header, futureChunks_flatten]
+  simpa using h4
+
 /-- ... hence a reader of the resolved stream — the buffered remainder first, then the chunks the
     transport delivers before the stream ends (`readAll`) — obtains exactly the payload. -/
 theorem C19_uni_reader_obtains_payload (sid : Nat) (hsid : sid < 2^62) (payload : List Nat)
     (sc : List UniAccept.Ev) (hwf : ScriptWF sc) (hbytes : bytesOf sc = uniHeader sid ++ payload) :
     ∃ s r, resolve (sc.length + 1) {} sc = .resolved s r ∧ s.id = some sid ∧
-      readAll [s.buf] (futureChunks s r) = payload := by
-  obtain ⟨s, r, h1, _, h3, h4⟩ := C19_uni_payload_after_header sid hsid payload sc hwf hbytes
-  refine ⟨s, r, h1, h3, ?_⟩
-  rw [C19_read_after_header, futureChunks_flatten]
-  simpa using h4
+      readAll [s.buf] (futureChunks s r) = payload :=
+  C19_uni_reader_after_any_header sid (uniHeader sid) payload (uniHeader_reads sid hsid) sc hwf hbytes
 
 /-! non-vacuity: session 65536 (`40 54 | 80 01 00 00`), payload `aa bb`: everything in one chunk
     with FIN behind; cut inside the type varint and inside the id varint with `Pending` between -/
@@ -267,6 +373,27 @@ example : ∃ s r, resolve 8 {} [.chunk [0x40], .pend, .chunk [0x54, 0x80], .pen
   C19_uni_reader_obtains_payload 65536 (by decide) [0xaa, 0xbb]
     [.chunk [0x40], .pend, .chunk [0x54, 0x80], .pend, .chunk [0x01, 0x00], .chunk [0x00, 0xaa], .chunk [0xbb]]
     (by intro b hb; simp at hb; rcases hb with rfl | rfl | rfl | rfl | rfl <;> simp [WF]) (by decide)
+
+/-- a header whose type AND session id the peer wrote in a longer form than necessary
+    (`40 54` for 0x54, `40 04` for 4) -/
+theorem long_uni_header_reads (p : List Nat) :
+    header ([0x40, 0x54, 0x40, 0x04] ++ p) = .complete 0x54 (some 4) p := by
+  have h1 : Varint.rfcDecode ([0x40, 0x54, 0x40, 0x04] ++ p) = some (0x54, 0x40 :: 0x04 :: p) := by
+    simp [Varint.rfcDecode, Varint.rfcLen, Varint.rfcValue, Varint.beVal]
+  have h2 : Varint.rfcDecode (0x40 :: 0x04 :: p) = some (4, p) := by
+    simp [Varint.rfcDecode, Varint.rfcLen, Varint.rfcValue, Varint.beVal]
+  unfold header
+  rw [h1]
+  simp only [show Spec.ControlRules.hasId 0x54 = true by decide, if_true, h2]
+
+-- `40 54 40 04 | aa bb`, cut inside both varints, `Pending` in between
+example : resolve 7 {} [.chunk [0x40], .pend, .chunk [0x54, 0x40], .pend, .chunk [0x04, 0xaa], .chunk [0xbb]] =
+    .resolved { buf := [0xaa], ty := some 0x54, id := some 4 } [.chunk [0xbb]] := by decide +kernel
+example : ∃ s r, resolve 7 {} [.chunk [0x40], .pend, .chunk [0x54, 0x40], .pend, .chunk [0x04, 0xaa],
+      .chunk [0xbb]] = .resolved s r ∧ s.ty = some 0x54 ∧ s.id = some 4 ∧ s.buf ++ future s r = [0xaa, 0xbb] :=
+  C19_uni_payload_after_any_header 4 [0x40, 0x54, 0x40, 0x04] [0xaa, 0xbb] long_uni_header_reads
+    [.chunk [0x40], .pend, .chunk [0x54, 0x40], .pend, .chunk [0x04, 0xaa], .chunk [0xbb]]
+    (by intro b hb; simp at hb; rcases hb with rfl | rfl | rfl | rfl <;> simp [WF]) (by decide)
 
 end uni
 
@@ -366,16 +493,213 @@ example : (readLim [64, 64, 64, 64] (Rd.ofFS { buf := [[0xaa]], remaining := USI
 
 end limited
 
+/-! ## Liveness: the header IS answered -/
+
+section live
+open H3.FS
+
+/-- **The WebTransport bidi header is answered, any encoding of the header.**  `hdr` is any byte
+    string the frame decoder reads as the WebTransport header of session `sid` whatever follows
+    (that a proper prefix of it is answered `Incomplete` follows from the decoder's laws,
+    `frameDec_laws.minimal`).  The transport delivers `hdr ++ payload` (`payload` may be empty) cut
+    in ANY way, `Pending` anywhere, nothing delivered behind FIN / RESET (`EndLast`: the header is
+    delivered completely).  `poll_next` is polled from the initial state; every `Pending` answer is
+    followed by another poll once the transport has more to say (`pollUntil`).  Then the polls end
+    with the answer `frame (webTransport sid)` — never `Pending` with the script used up, never an
+    error, never the end of the stream, never another frame — after at most one poll per script
+    event, and the configuration they end in is one of those `C19_payload_after_any_header` speaks
+    about (`Reach` with exactly that token handed out): its hypothesis is never vacuous. -/
+theorem C19_any_bidi_header_is_answered (sid : Nat) (hdr payload : List Nat)
+    (hdec : ∀ p, H3.Frame.decode (hdr ++ p) = .frame (.webTransport sid) hdr.length)
+    (sc : List Ev) (hsc : ScriptOK sc) (hbytes : evBytes sc = hdr ++ payload) (hend : EndLast sc) :
+    ∃ s rest, pollUntil frameDec (sc.length + 1) {} sc = (.frame (.webTransport sid), s, rest) ∧
+      Reach frameDec sc [FS.Tok.frame (.webTransport sid)] s rest := by
+  have hdec' : ∀ p, frameDec.dec (hdr ++ p) = .frame (.webTransport sid) hdr.length := by
+    intro p
+    show liftRes (H3.Frame.decode (hdr ++ p)) = _
+    rw [hdec p]
+    rfl
+  exact pollUntil_answers frameDec frameDec_laws hdr payload (.webTransport sid) hdec' sc hsc hend hbytes
+    (sc.length + 1) {} sc Reach.init (Or.inl rfl) rfl (Nat.lt_succ_self _)
+
+/-- **The WebTransport bidi header is answered.**  The same for the header h3 itself writes for
+    session `sid`, every `sid < 2^62`, every payload (also the empty one), every cutting. -/
+theorem C19_bidi_header_is_answered (sid : Nat) (hsid : sid < 2^62) (payload : List Nat)
+    (sc : List Ev) (hsc : ScriptOK sc) (hbytes : evBytes sc = bidiHeader sid ++ payload)
+    (hend : EndLast sc) :
+    ∃ s rest, pollUntil frameDec (sc.length + 1) {} sc = (.frame (.webTransport sid), s, rest) ∧
+      Reach frameDec sc [FS.Tok.frame (.webTransport sid)] s rest :=
+  C19_any_bidi_header_is_answered sid (bidiHeader sid) payload (C19_bidi_header_decodes sid hsid) sc hsc
+    hbytes hend
+
+/-- ... and then the payload: liveness composed with `C19_payload_after_any_header` /
+    `C19_bidi_reader_obtains_payload`.  Re-polling `poll_next` ends with the WebTransport frame of
+    session `sid`, the stream is then in raw mode, what is buffered followed by what the transport
+    still delivers is exactly the payload, and that is what a reader obtains after `into_inner()`. -/
+theorem C19_any_bidi_header_then_payload (sid : Nat) (hdr payload : List Nat)
+    (hdec : ∀ p, H3.Frame.decode (hdr ++ p) = .frame (.webTransport sid) hdr.length)
+    (hlen : payload.length < 2^64)
+    (sc : List Ev) (hsc : ScriptOK sc) (hbytes : evBytes sc = hdr ++ payload) (hend : EndLast sc) :
+    ∃ s rest, pollUntil frameDec (sc.length + 1) {} sc = (.frame (.webTransport sid), s, rest) ∧
+      s.remaining = USIZE_MAX ∧ s.flat ++ evBytes rest = payload ∧
+      readAll s.buf (evChunks rest) = payload := by
+  obtain ⟨s, rest, hp, hR⟩ := C19_any_bidi_header_is_answered sid hdr payload hdec sc hsc hbytes hend
+  obtain ⟨_, h2, h3⟩ := C19_payload_after_any_header sid hdr payload hdec hlen sc hsc hbytes hR
+  refine ⟨s, rest, hp, h2, h3, ?_⟩
+  rw [C19_read_after_header, evChunks_flatten]
+  exact h3
+
+theorem C19_bidi_header_then_payload (sid : Nat) (hsid : sid < 2^62) (payload : List Nat)
+    (hlen : payload.length < 2^64)
+    (sc : List Ev) (hsc : ScriptOK sc) (hbytes : evBytes sc = bidiHeader sid ++ payload)
+    (hend : EndLast sc) :
+    ∃ s rest, pollUntil frameDec (sc.length + 1) {} sc = (.frame (.webTransport sid), s, rest) ∧
+      s.remaining = USIZE_MAX ∧ s.flat ++ evBytes rest = payload ∧
+      readAll s.buf (evChunks rest) = payload :=
+  C19_any_bidi_header_then_payload sid (bidiHeader sid) payload (C19_bidi_header_decodes sid hsid) hlen sc
+    hsc hbytes hend
+
+/-! non-vacuity: `cut₂` (`40 | Pending | 41 41 | Pending | 00 aa | bb cc | FIN`: cuts inside both
+    varints and inside the payload): three polls, the third answers the frame; the theorem
+    instantiated on it; the long header `40 41 40 04` with an EMPTY payload and a RESET behind it;
+    and what the hypotheses exclude: a header that is not delivered completely is answered
+    `Pending` (stream still open) or `UnexpectedEnd` (FIN inside the header) -/
+example : pollUntil frameDec 8 {} cut₂ =
+    (.frame (.webTransport 256), { buf := [[0xaa]], remaining := USIZE_MAX }, [.chunk [0xbb, 0xcc], .fin]) := by
+  decide +kernel
+example : ∃ s rest, pollUntil frameDec (cut₂.length + 1) {} cut₂ = (.frame (.webTransport 256), s, rest) ∧
+    s.remaining = USIZE_MAX ∧ s.flat ++ evBytes rest = [0xaa, 0xbb, 0xcc] ∧
+    readAll s.buf (evChunks rest) = [0xaa, 0xbb, 0xcc] :=
+  C19_bidi_header_then_payload 256 (by decide) [0xaa, 0xbb, 0xcc] (by decide) cut₂
+    (by intro b hb; simp [cut₂] at hb; rcases hb with rfl | rfl | rfl | rfl <;> simp) (by decide)
+    (by simp [cut₂, EndLast, evBytes])
+example : pollUntil frameDec 5 {} [.chunk [0x40, 0x41], .pend, .chunk [0x40, 0x04], .reset 7] =
+    (.frame (.webTransport 4), { buf := [], remaining := USIZE_MAX }, [.reset 7]) := by decide +kernel
+example : ∃ s rest, pollUntil frameDec 5 {} [.chunk [0x40, 0x41], .pend, .chunk [0x40, 0x04], .reset 7] =
+      (.frame (.webTransport 4), s, rest) ∧
+    Reach frameDec [.chunk [0x40, 0x41], .pend, .chunk [0x40, 0x04], .reset 7]
+      [FS.Tok.frame (.webTransport 4)] s rest :=
+  C19_any_bidi_header_is_answered 4 [0x40, 0x41, 0x40, 0x04] [] long_header_decodes
+    [.chunk [0x40, 0x41], .pend, .chunk [0x40, 0x04], .reset 7]
+    (by intro b hb; simp at hb; rcases hb with rfl | rfl <;> simp) (by decide) (by simp [EndLast, evBytes])
+example : (pollUntil frameDec 4 {} [.chunk [0x40, 0x41], .pend, .chunk [0x41]]).1 = .pending ∧
+    (pollUntil frameDec 4 {} [.chunk [0x40, 0x41], .pend, .chunk [0x41], .fin]).1 = .errEnd ∧
+    (pollUntil frameDec 4 {} [.chunk [0x40, 0x41], .reset 7, .chunk [0x41, 0x00]]).1 = .errQuic 7 := by
+  decide +kernel
+
+end live
+
+/-! ## The signal only at the very first bytes (finding D-19b) -/
+
+section signalFirst
+open H3.FS
+
+/-- **The WebTransport signal is honoured only at the first bytes of the stream — partial.**
+    draft-ietf-webtrans-http3 §4.2 allows the 0x41 signal only as the VERY FIRST bytes of a
+    bidirectional stream.  The FULL statement would be: whenever re-polling `poll_next` from the
+    initial state over a script `sc` answers the WebTransport frame of session `x` (`pollUntil
+    frameDec (sc.length + 1) {} sc = (.frame (.webTransport x), s, rest)`, or, more generally, any
+    configuration `Reach frameDec sc [Tok.frame (.webTransport x)] s rest`), the stream's first
+    bytes are a 0x41 header for `x`: `∃ n, Frame.decode (evBytes sc) = .frame (.webTransport x) n`.
+    That is FALSE for the code (finding D-19b, `C19_signal_only_at_first_bytes_full_fails`): the
+    frame layer skips frames of unknown type and hands out `Frame::WebTransportStream` also behind
+    them.  Proved here: the full conclusion under the one extra hypothesis `hfirst` that the first
+    frame of the stream is not one the decoder skips as unknown (stated on the whole byte string
+    the script carries; by the stability law of the decoder this is the same as saying it of any
+    prefix long enough to be decoded).  Every other way to reach the token is excluded: a first
+    frame of a known type would have been handed out first (the token list is exactly `[frame
+    (webTransport x)]`), an error ends the stream. -/
+theorem C19_signal_only_at_first_bytes_partial (sc : List Ev) (hsc : ScriptOK sc)
+    {x : Nat} {s : FS.St} {rest : List Ev}
+    (h : Reach frameDec sc [FS.Tok.frame (.webTransport x)] s rest)
+    (hfirst : ∀ n, H3.Frame.decode (evBytes sc) ≠ .unknown n) :
+    ∃ n, H3.Frame.decode (evBytes sc) = .frame (.webTransport x) n := by
+  obtain ⟨taken, hsc0, hI⟩ := H3.Props.C02.C02_chunking_independent frameDec frameDec_laws sc hsc h
+  obtain ⟨consumed, hseen, hrun⟩ := hI.split
+  have hall : evBytes sc = consumed ++ (s.flat ++ evBytes rest) := by
+    rw [hsc0, evBytes_append, hseen, List.append_assoc]
+  have hun : ∀ n, frameDec.dec consumed ≠ .unknown n := by
+    intro n hd
+    have hst := frameDec_laws.stable consumed (s.flat ++ evBytes rest) (by rw [hd]; rfl)
+    rw [← hall, hd] at hst
+    apply hfirst n
+    change liftRes (H3.Frame.decode (evBytes sc)) = .unknown n at hst
+    cases hd' : H3.Frame.decode (evBytes sc) <;> rw [hd'] at hst <;> simp only [liftRes] at hst <;> cases hst
+    rfl
+  obtain ⟨n, hd⟩ := first_frame_of_run frameDec frameDec_laws consumed (.webTransport x) _ hrun hun
+  have hst := frameDec_laws.stable consumed (s.flat ++ evBytes rest) (by rw [hd]; rfl)
+  rw [← hall, hd] at hst
+  change liftRes (H3.Frame.decode (evBytes sc)) = .frame (.webTransport x) n at hst
+  refine ⟨n, ?_⟩
+  cases hd' : H3.Frame.decode (evBytes sc) <;> rw [hd'] at hst <;> simp only [liftRes] at hst <;> cases hst
+  rfl
+
+/-- the partial theorem for the re-polling reader: if `poll_next`, polled again after every
+    `Pending`, ends with the WebTransport frame of session `x`, and the first frame of the stream is
+    not skipped as unknown, the stream starts with a WebTransport header for `x` -/
+theorem C19_signal_only_at_first_bytes_polled_partial (sc : List Ev) (hsc : ScriptOK sc) (fuel : Nat)
+    {x : Nat} {s : FS.St} {rest : List Ev}
+    (h : pollUntil frameDec fuel {} sc = (.frame (.webTransport x), s, rest))
+    (hfirst : ∀ n, H3.Frame.decode (evBytes sc) ≠ .unknown n) :
+    ∃ n, H3.Frame.decode (evBytes sc) = .frame (.webTransport x) n :=
+  C19_signal_only_at_first_bytes_partial sc hsc
+    (pollUntil_reach frameDec sc fuel [] {} sc Reach.init _ _ _ h rfl) hfirst
+
+/-- **The full statement fails (finding D-19b).**  Witness: the stream `21 00 | 40 41 00 | aa bb` + FIN —
+    a GREASE frame (type 0x21) of length 0, then the 0x41 signal for session 0.  One `poll_next`
+    (so also the re-polling reader) answers `frame (webTransport 0)` and enters raw mode with `aa bb`
+    buffered, although the decoder reads the first bytes of the stream as an unknown frame of 2
+    bytes, not as a WebTransport header; hence the full statement (for `Reach`, of which the
+    `pollUntil` form is an instance by `pollUntil_reach`) is refuted. -/
+theorem C19_signal_only_at_first_bytes_full_fails :
+    pollUntil frameDec 3 {} [.chunk [0x21, 0x00, 0x40, 0x41, 0x00, 0xaa, 0xbb], .fin] =
+      (.frame (.webTransport 0), { buf := [[0xaa, 0xbb]], remaining := USIZE_MAX }, [.fin]) ∧
+    H3.Frame.decode [0x21, 0x00, 0x40, 0x41, 0x00, 0xaa, 0xbb] = .unknown 2 ∧
+    ¬ (∀ (sc : List Ev) (x : Nat) (s : FS.St) (rest : List Ev), ScriptOK sc →
+        Reach frameDec sc [FS.Tok.frame (.webTransport x)] s rest →
+        ∃ n, H3.Frame.decode (evBytes sc) = .frame (.webTransport x) n) := by
+  have hp : pollNext frameDec {} [.chunk [0x21, 0x00, 0x40, 0x41, 0x00, 0xaa, 0xbb], .fin] =
+      (.frame (.webTransport 0), { buf := [[0xaa, 0xbb]], remaining := USIZE_MAX }, [.fin]) := by
+    decide +kernel
+  have hd : H3.Frame.decode [0x21, 0x00, 0x40, 0x41, 0x00, 0xaa, 0xbb] = .unknown 2 := by decide +kernel
+  refine ⟨by decide +kernel, hd, fun hall => ?_⟩
+  obtain ⟨n, hn⟩ := hall [.chunk [0x21, 0x00, 0x40, 0x41, 0x00, 0xaa, 0xbb], .fin] 0 _ _
+    (by intro b hb; simp at hb; subst hb; simp) (Reach.next Reach.init hp rfl)
+  have he : evBytes [.chunk [0x21, 0x00, 0x40, 0x41, 0x00, 0xaa, 0xbb], .fin] =
+      [0x21, 0x00, 0x40, 0x41, 0x00, 0xaa, 0xbb] := by decide
+  rw [he, hd] at hn
+  cases hn
+
+/-! non-vacuity of the partial theorem: `cut₂` (`40 41 41 00 | aa bb cc`, cut inside both varints):
+    the configuration reached after three polls; the first frame is not unknown; the conclusion -/
+example : H3.Frame.decode (evBytes cut₂) = .frame (.webTransport 256) 4 := by decide +kernel
+example : ∃ n, H3.Frame.decode (evBytes cut₂) = .frame (.webTransport 256) n :=
+  C19_signal_only_at_first_bytes_partial cut₂
+    (by intro b hb; simp [cut₂] at hb; rcases hb with rfl | rfl | rfl | rfl <;> simp) reach_cut₂
+    (by intro n; rw [show H3.Frame.decode (evBytes cut₂) = .frame (.webTransport 256) 4 by decide +kernel]
+        intro h; cases h)
+
+example : ∃ n, H3.Frame.decode (evBytes cut₂) = .frame (.webTransport 256) n :=
+  C19_signal_only_at_first_bytes_polled_partial cut₂
+    (by intro b hb; simp [cut₂] at hb; rcases hb with rfl | rfl | rfl | rfl <;> simp) 8
+    (by decide +kernel : pollUntil frameDec 8 {} cut₂ =
+      (.frame (.webTransport 256), { buf := [[0xaa]], remaining := USIZE_MAX }, [.chunk [0xbb, 0xcc], .fin]))
+    (by intro n; rw [show H3.Frame.decode (evBytes cut₂) = .frame (.webTransport 256) 4 by decide +kernel]
+        intro h; cases h)
+
+end signalFirst
+
 section limitedUni
 open H3.UniAccept H3.Lemmas.C04
 open H3.FS (ScriptOK)
 
-/-- **Unidirectional streams, buffer-limited reader.**  As `C19_uni_reader_obtains_payload`, with
-    the application reading the resolved stream through `AsyncRead::poll_read` with ANY sequence of
-    positive buffer sizes. -/
-theorem C19_uni_limited_reader_obtains_payload (sid : Nat) (hsid : sid < 2^62) (payload : List Nat)
+/-- **Unidirectional streams, buffer-limited reader, any encoding of the header.**  As
+    `C19_uni_reader_after_any_header`, with the application reading the resolved stream through
+    `AsyncRead::poll_read` with ANY sequence of positive buffer sizes. -/
+theorem C19_uni_limited_reader_after_any_header (sid : Nat) (hdr payload : List Nat)
+    (hh : ∀ p, H3.Spec.ControlRules.header (hdr ++ p) = .complete 0x54 (some sid) p)
     (sc : List UniAccept.Ev) (hwf : ScriptWF sc) (hsc : ScriptOK sc)
-    (hbytes : bytesOf sc = uniHeader sid ++ payload)
+    (hbytes : bytesOf sc = hdr ++ payload)
     (sizes : List Nat) (hpos : ∀ n ∈ sizes, 0 < n) :
     ∃ s r, resolve (sc.length + 1) {} sc = .resolved s r ∧ s.id = some sid ∧
       (∃ rest, (readLim sizes (Rd.ofUni s) (uniScript s r)).pieces.flatten ++ rest = payload) ∧
@@ -384,7 +708,7 @@ theorem C19_uni_limited_reader_obtains_payload (sid : Nat) (hsid : sid < 2^62) (
       (payload.length < sizes.length →
         (readLim sizes (Rd.ofUni s) (uniScript s r)).pieces.flatten = payload ∧
         (readLim sizes (Rd.ofUni s) (uniScript s r)).fin = endOf (uniScript s r)) := by
-  obtain ⟨s, r, h1, _, h3, h4⟩ := C19_uni_payload_after_header sid hsid payload sc hwf hbytes
+  obtain ⟨s, r, h1, _, h3, h4⟩ := C19_uni_payload_after_any_header sid hdr payload hh sc hwf hbytes
   refine ⟨s, r, h1, h3, ?_⟩
   obtain ⟨pre, hpre⟩ := resolve_suffix _ _ _ _ _ h1
   have hr : ScriptOK r := by rw [hpre] at hsc; exact H3.FS.scriptOK_suffix hsc
@@ -423,6 +747,22 @@ theorem C19_uni_limited_reader_obtains_payload (sid : Nat) (hsid : sid < 2^62) (
     rw [hpay] at this
     exact this
 
+/-- **Unidirectional streams, buffer-limited reader.**  The same for the header h3 itself writes
+    (`uniHeader sid`), for every session id. -/
+theorem C19_uni_limited_reader_obtains_payload (sid : Nat) (hsid : sid < 2^62) (payload : List Nat)
+    (sc : List UniAccept.Ev) (hwf : ScriptWF sc) (hsc : ScriptOK sc)
+    (hbytes : bytesOf sc = uniHeader sid ++ payload)
+    (sizes : List Nat) (hpos : ∀ n ∈ sizes, 0 < n) :
+    ∃ s r, resolve (sc.length + 1) {} sc = .resolved s r ∧ s.id = some sid ∧
+      (∃ rest, (readLim sizes (Rd.ofUni s) (uniScript s r)).pieces.flatten ++ rest = payload) ∧
+      (∀ p ∈ (readLim sizes (Rd.ofUni s) (uniScript s r)).pieces, p ≠ []) ∧
+      Fits (readLim sizes (Rd.ofUni s) (uniScript s r)).pieces sizes ∧
+      (payload.length < sizes.length →
+        (readLim sizes (Rd.ofUni s) (uniScript s r)).pieces.flatten = payload ∧
+        (readLim sizes (Rd.ofUni s) (uniScript s r)).fin = endOf (uniScript s r)) :=
+  C19_uni_limited_reader_after_any_header sid (uniHeader sid) payload (uniHeader_reads sid hsid) sc hwf hsc
+    hbytes sizes hpos
+
 -- session 65536, payload `aa bb`, cut inside both varints; `aa` is buffered behind the header, `bb`
 -- still to come: read with 1-byte buffers
 example : readLim [1, 1, 1] (Rd.ofUni { buf := [0xaa], ty := some 0x54, id := some 65536 })
@@ -442,6 +782,21 @@ example : ∃ s r, resolve 9 {} [.chunk [0x40], .pend, .chunk [0x54, 0x80], .pen
     (by intro b hb; simp at hb; rcases hb with rfl | rfl | rfl | rfl | rfl <;> simp) (by decide)
     [1, 1, 1] (by decide)
 
+-- the long header `40 54 40 04` + `aa bb`, cut inside both varints, read with 1-byte buffers
+example : ∃ s r, resolve 8 {} [.chunk [0x40], .pend, .chunk [0x54, 0x40], .pend, .chunk [0x04, 0xaa],
+      .chunk [0xbb], .fin] = .resolved s r ∧ s.id = some 4 ∧
+      (∃ rest, (readLim [1, 1, 1] (Rd.ofUni s) (uniScript s r)).pieces.flatten ++ rest = [0xaa, 0xbb]) ∧
+      (∀ p ∈ (readLim [1, 1, 1] (Rd.ofUni s) (uniScript s r)).pieces, p ≠ []) ∧
+      Fits (readLim [1, 1, 1] (Rd.ofUni s) (uniScript s r)).pieces [1, 1, 1] ∧
+      (([0xaa, 0xbb] : List Nat).length < [1, 1, 1].length →
+        (readLim [1, 1, 1] (Rd.ofUni s) (uniScript s r)).pieces.flatten = [0xaa, 0xbb] ∧
+        (readLim [1, 1, 1] (Rd.ofUni s) (uniScript s r)).fin = endOf (uniScript s r)) :=
+  C19_uni_limited_reader_after_any_header 4 [0x40, 0x54, 0x40, 0x04] [0xaa, 0xbb] long_uni_header_reads
+    [.chunk [0x40], .pend, .chunk [0x54, 0x40], .pend, .chunk [0x04, 0xaa], .chunk [0xbb], .fin]
+    (by intro b hb; simp at hb; rcases hb with rfl | rfl | rfl | rfl <;> simp [WF])
+    (by intro b hb; simp at hb; rcases hb with rfl | rfl | rfl | rfl <;> simp) (by decide)
+    [1, 1, 1] (by decide)
+
 end limitedUni
 
 /-! ## Several WebTransport uni streams buffered at once (`wt_uni_streams`) -/
@@ -455,12 +810,21 @@ open H3.UniAccept H3.Lemmas.C04
 structure Sent where
   stream : Nat
   sid : Nat
+  /-- the header bytes as the peer wrote them: any encoding the RFC 9000 reader reads as type 0x54,
+      id `sid` (`Sent.OK`) — `uniHeader sid` or a longer form of either varint -/
+  hdr : List Nat
   payload : List Nat
   sc : List UniAccept.Ev
 deriving DecidableEq
 
 def Sent.OK (x : Sent) : Prop :=
-  x.sid < 2^62 ∧ ScriptWF x.sc ∧ bytesOf x.sc = uniHeader x.sid ++ x.payload
+  (∀ p, H3.Spec.ControlRules.header (x.hdr ++ p) = .complete 0x54 (some x.sid) p) ∧ ScriptWF x.sc ∧
+    bytesOf x.sc = x.hdr ++ x.payload
+
+/-- a stream with the header h3 itself writes is `OK` -/
+theorem Sent.ok_canonical (x : Sent) (hsid : x.sid < 2^62) (hh : x.hdr = uniHeader x.sid)
+    (hwf : ScriptWF x.sc) (hb : bytesOf x.sc = uniHeader x.sid ++ x.payload) : x.OK :=
+  ⟨by rw [hh]; exact uniHeader_reads x.sid hsid, hwf, by rw [hh]; exact hb⟩
 
 def Sent.toIn (x : Sent) : UniIn := ⟨x.stream, x.sc⟩
 
@@ -487,8 +851,8 @@ def arrived : List Act → List Sent
 
 private theorem uniFate_ok (x : Sent) (hx : x.OK) :
     ∃ rd sc, uniFate true x.sc = .surface x.sid rd sc ∧ rd.buf.flatten ++ bytesOf sc = x.payload := by
-  obtain ⟨hsid, hwf, hbytes⟩ := hx
-  obtain ⟨s, r, h1, h2, h3, h4⟩ := C19_uni_payload_after_header x.sid hsid x.payload x.sc hwf hbytes
+  obtain ⟨hh, hwf, hbytes⟩ := hx
+  obtain ⟨s, r, h1, h2, h3, h4⟩ := C19_uni_payload_after_any_header x.sid x.hdr x.payload hh x.sc hwf hbytes
   refine ⟨Rd.ofUni s, uniScript s r, ?_, ?_⟩
   · have hi : intoStream s = some (.wtUni x.sid) := by
       unfold intoStream
@@ -610,8 +974,10 @@ private theorem keep_identity_aux (acts : List Act) :
         exact List.perm_middle.symm
 
 /-- **Buffered streams keep their identity.**  The peer opens any number of WebTransport uni
-    streams — any QUIC stream ids, any session ids below 2^62 (the session's own or not), any
-    payloads, each delivered in any cutting with `Pending` anywhere — and the application calls
+    streams — any QUIC stream ids, any session ids (the session's own or not) in ANY encoding the
+    RFC 9000 reader reads as type 0x54 + that id (`Sent.hdr`: the minimal one h3 writes or longer
+    forms of either varint), any payloads, each delivered in any cutting with `Pending` anywhere —
+    and the application calls
     `accept_uni` any number of times, arrivals and calls interleaved in ANY order (`acts`).  Then
     the entries surfaced by the calls, together with the entries still buffered in
     `wt_uni_streams` once `poll_accept_recv` has run again, are — as triples (QUIC stream, session
@@ -657,12 +1023,13 @@ theorem C19_accept_uni_waits_only_when_nothing_is_buffered (a : Accepted) (P : L
     simp at h2
 
 /-! non-vacuity: three streams (QUIC ids 6, 10, 14) for the sessions 4, 8 and 12 with the payloads
-    `aa`, `bb`, `cc` (the second header cut inside, the third with FIN behind it); two arrive, one
+    `aa`, `bb`, `cc` (the first with the non-minimal header `40 54 40 04` cut inside the id, the
+    second header cut inside, the third with FIN behind it); two arrive, one
     accept, the third arrives, two more accepts: surfaced 10, 14, 6 — each with its own session id
     and its own bytes -/
-def s6 : Sent := ⟨6, 4, [0xaa], [.chunk [0x40, 0x54, 0x04, 0xaa]]⟩
-def s10 : Sent := ⟨10, 8, [0xbb], [.chunk [0x40], .pend, .chunk [0x54, 0x08], .chunk [0xbb]]⟩
-def s14 : Sent := ⟨14, 12, [0xcc], [.chunk [0x40, 0x54, 0x0c, 0xcc], .fin]⟩
+def s6 : Sent := ⟨6, 4, [0x40, 0x54, 0x40, 0x04], [0xaa], [.chunk [0x40, 0x54, 0x40], .chunk [0x04, 0xaa]]⟩
+def s10 : Sent := ⟨10, 8, uniHeader 8, [0xbb], [.chunk [0x40], .pend, .chunk [0x54, 0x08], .chunk [0xbb]]⟩
+def s14 : Sent := ⟨14, 12, uniHeader 12, [0xcc], [.chunk [0x40, 0x54, 0x0c, 0xcc], .fin]⟩
 def three : List Act := [.arrive s6, .arrive s10, .accept, .arrive s14, .accept, .accept]
 
 example : (runAccepts true {} (three.map Act.op)).1.map ident =
@@ -675,9 +1042,10 @@ example : List.Perm ((runAccepts true {} (three.map Act.op)).1.map ident ++
     intro x hx
     simp [three, arrived] at hx
     rcases hx with rfl | rfl | rfl
-    · exact ⟨by decide, by intro b hb; simp [s6] at hb; rw [hb]; simp [WF], by decide⟩
-    · exact ⟨by decide, by intro b hb; simp [s10] at hb; rcases hb with rfl | rfl | rfl <;> simp [WF], by decide⟩
-    · exact ⟨by decide, by intro b hb; simp [s14] at hb; rw [hb]; simp [WF], by decide⟩)).1
+    · exact ⟨long_uni_header_reads, by intro b hb; simp [s6] at hb; rcases hb with rfl | rfl <;> simp [WF], by decide⟩
+    · exact Sent.ok_canonical s10 (by decide) rfl
+        (by intro b hb; simp [s10] at hb; rcases hb with rfl | rfl | rfl <;> simp [WF]) (by decide)
+    · exact Sent.ok_canonical s14 (by decide) rfl (by intro b hb; simp [s14] at hb; rw [hb]; simp [WF]) (by decide))).1
 -- a fourth accept waits: nothing is buffered any more; a stream that ends inside its header is never surfaced
 example : ((runAccepts true {} (three.map Act.op)).2.acceptUni true).1 = none := by decide +kernel
 example : (runAccepts true {} [.arrive ⟨6, [.chunk [0x40, 0x54], .fin]⟩, .accept]).1 = [] ∧
@@ -795,6 +1163,25 @@ theorem C19_opened_bidi_read_back (sid : Nat) (hsid : sid < 2^62) (hs : List Nat
   refine ⟨(C19_payload_after_header sid hsid _ hlen sc0 hsc hbytes h).1, ?_⟩
   exact (C19_bidi_limited_reader_obtains_payload sid hsid _ hlen sc0 hsc hbytes hend h sizes hpos).2.2.2 hn
 
+/-- **... without assuming that the receiver ever gets the frame.**  `C19_opened_bidi_read_back`
+    composed with the liveness theorem `C19_bidi_header_is_answered`: the receiver polls `poll_next`
+    from the initial state, again after every `Pending`; the polls end with the WebTransport frame
+    of the sender's session id, and reading from there with any positive buffer sizes (more buffers
+    than bytes) yields exactly the bytes handed to the sender's write calls. -/
+theorem C19_opened_bidi_answered_and_read_back (sid : Nat) (hsid : sid < 2^62) (hs : List Nat)
+    (ops : List WOp) (hf : FramesOK ops) (hst : (openBidi sid hs ops).stuck = false)
+    (hlen : (handed ops).length < 2^64) (sc0 : List Ev) (hsc : ScriptOK sc0)
+    (hbytes : evBytes sc0 = (openBidi sid hs ops).wire) (hend : EndLast sc0)
+    (sizes : List Nat) (hpos : ∀ n ∈ sizes, 0 < n) (hn : (handed ops).length < sizes.length) :
+    ∃ s script, pollUntil frameDec (sc0.length + 1) {} sc0 = (.frame (.webTransport sid), s, script) ∧
+      (readLim sizes (Rd.ofFS s) script).pieces.flatten = handed ops ∧
+      (readLim sizes (Rd.ofFS s) script).fin = endOf script := by
+  have hw := ((C19_opened_bidi_wire sid hsid hs ops hf).2.2.1 hst).1
+  have hbytes' : evBytes sc0 = bidiHeader sid ++ handed ops := by rw [hbytes, hw]
+  obtain ⟨s, script, hp, hR⟩ := C19_bidi_header_is_answered sid hsid (handed ops) sc0 hsc hbytes' hend
+  exact ⟨s, script, hp,
+    (C19_opened_bidi_read_back sid hsid hs ops hf hst hlen sc0 hsc hbytes hend hR sizes hpos hn).2⟩
+
 -- the seven bytes of `cut₂` are what `open_bi(256)` + a 3-byte slice put on the wire
 example : (openBidi 256 [4] [.slice [0xaa, 0xbb, 0xcc] [3]]).wire = evBytes cut₂ := by decide +kernel
 example : 256 = 256 ∧
@@ -806,6 +1193,14 @@ example : 256 = 256 ∧
     (by intro p sc hm; simp at hm) (by decide +kernel) (by decide) cut₂
     (by intro b hb; simp [cut₂] at hb; rcases hb with rfl | rfl | rfl | rfl <;> simp) (by decide +kernel)
     (by simp [cut₂, EndLast, evBytes]) reach_cut₂ [2, 2, 2, 2] (by decide) (by decide)
+
+example : ∃ s script, pollUntil frameDec (cut₂.length + 1) {} cut₂ = (.frame (.webTransport 256), s, script) ∧
+    (readLim [2, 2, 2, 2] (Rd.ofFS s) script).pieces.flatten = handed [.slice [0xaa, 0xbb, 0xcc] [3]] ∧
+    (readLim [2, 2, 2, 2] (Rd.ofFS s) script).fin = endOf script :=
+  C19_opened_bidi_answered_and_read_back 256 (by decide) [4] [.slice [0xaa, 0xbb, 0xcc] [3]]
+    (by intro p sc hm; simp at hm) (by decide +kernel) (by decide) cut₂
+    (by intro b hb; simp [cut₂] at hb; rcases hb with rfl | rfl | rfl | rfl <;> simp) (by decide +kernel)
+    (by simp [cut₂, EndLast, evBytes]) [2, 2, 2, 2] (by decide) (by decide)
 
 end readback
 
